@@ -88,6 +88,15 @@ CHECKS["C12"] = dict(
     note="Says nothing about global optimality beyond the alternatives tried; equivariance of location-free families only where shape >= 1.2 (bounded likelihood).",
     design="7/C12",
 )
+CHECKS["C14"] = dict(
+    technique="property-based testing (Hypothesis): invariant oracles (bounds, constraints, objective dominance over start and 64 admissible perturbations, numpy lstsq for linear shapes) and generated fit histories compared with a dependency-order reference",
+    text="Single fits: generated shape, data, bounds of all kinds, inequality constraints (dict/list, active/inactive), optional weights callable and start values; fitted parameters must respect bounds "
+         "and constraints and be no worse than the start or nearby admissible points for the harness' own (weighted) squared residual; linear shapes must reach the numpy least-squares objective. "
+         "Histories: chains of 2-3 dependence functions declared in any order and fitted once per round in any order for 1-3 rounds; final parameters equal fresh copies fitted in dependency order. "
+         "Three recorded known findings (inverse weighting via curve_fit sigma; re-fit start values depend on call order on multi-modal objectives; SLSQP stalls / returns start values) with incidence limits.",
+    note="Objective tolerances reflect curve_fit's absolute gradient tolerance and SLSQP's absolute ftol; perturbation optimality is necessary, not global optimality.",
+    design="7/C14",
+)
 NOT_YET = {}
 
 def main():
